@@ -168,6 +168,7 @@ if D[w] == vf64_max() && (seen[w] == vf64_max() || vw_dist < seen[w]) {
         ssr_wf(r, graph.n()),
         r.source == source,
 //@ before while let Some(fringe_item) = fringe.pop() {
+    let ghost mut popped: Set<usize> = Set::empty();
     proof {
         assert(heap_view(&fringe) =~= vstd::multiset::Multiset::<FringeNode>::empty().insert(FringeNode { distance: fneg(0.0f64), pred: source, v: source }));
     }
@@ -180,6 +181,17 @@ if D[w] == vf64_max() && (seen[w] == vf64_max() || vw_dist < seen[w]) {
             forall|it: FringeNode| #[trigger] heap_view(&fringe).count(it) > 0 ==> it.v < graph.n() && it.pred < graph.n(),
             forall|k: int| 0 <= k < S@.len() ==> #[trigger] S@[k] < graph.n(),
             forall|w: int, k: int| 0 <= w < graph.n() && 0 <= k < P@[w]@.len() ==> #[trigger] P@[w]@[k] < graph.n(),
+            // [C05.dijkstra.sigma_reset_on_strict_improvement]
+            // path counting: a node that has not been settled yet and whose predecessor list is the single node that last improved its
+            // tentative distance carries no path count (counts accumulated for an earlier, longer tentative distance must have been discarded)
+            forall|w: int| 0 <= w < graph.n() && !popped.contains(w as usize) && P@[w]@.len() == 1 ==> #[trigger] sigma@[w] == 0.0f64,
+            forall|w: int| 0 <= w < graph.n() && !popped.contains(w as usize) && w != source && P@[w]@.len() == 0 ==> feq(#[trigger] seen@[w], f64_max()),
+            forall|w: int| 0 <= w < graph.n() && !feq(#[trigger] D@[w], f64_max()) ==> popped.contains(w as usize),
+            popped.contains(source) || forall|it: FringeNode| #[trigger] heap_view(&fringe).count(it) > 0 ==> it.v == source,
+//@ after S.push(v);
+        proof {
+            popped = popped.insert(v);
+        }
 //@ loop 2
             invariant
                 v < graph.n(),
@@ -190,6 +202,11 @@ if D[w] == vf64_max() && (seen[w] == vf64_max() || vw_dist < seen[w]) {
                 forall|it: FringeNode| #[trigger] heap_view(&fringe).count(it) > 0 ==> it.v < graph.n() && it.pred < graph.n(),
                 forall|k: int| 0 <= k < S@.len() ==> #[trigger] S@[k] < graph.n(),
                 forall|w: int, k: int| 0 <= w < graph.n() && 0 <= k < P@[w]@.len() ==> #[trigger] P@[w]@[k] < graph.n(),
+                forall|w: int| 0 <= w < graph.n() && !popped.contains(w as usize) && P@[w]@.len() == 1 ==> #[trigger] sigma@[w] == 0.0f64,
+                forall|w: int| 0 <= w < graph.n() && !popped.contains(w as usize) && w != source && P@[w]@.len() == 0 ==> feq(#[trigger] seen@[w], f64_max()),
+                forall|w: int| 0 <= w < graph.n() && !feq(#[trigger] D@[w], f64_max()) ==> popped.contains(w as usize),
+                popped.contains(source),
+                popped.contains(v),
 //@ end
 
 // R-ext (A5): `D.into_iter().enumerate().filter(|(_, d)| *d != f64::MAX).collect()`: ASSUMED to keep exactly the reached entries
